@@ -47,6 +47,9 @@ class CModel(Model):
             return ('lib', '%s.%s' % (m.rel, name))
         if name in m.functions:
             return ('lib', '%s.%s' % (m.rel, name))
+        cv = m.consts.get(name)
+        if self.typestate and isinstance(cv, ast.Call) and isinstance(cv.func, ast.Name) and cv.func.id == 'null_archive' and not cv.args and not cv.keywords:
+            return ('arch', 'NULL')      # a shared module-level placeholder: within one process it is *the* null archive (what pickling does to it is S-IDENT's business)
         return None
 
     # ---- attribute access on self
